@@ -15,9 +15,9 @@ NOTES = {
     'C02': 'spec encoders with explicit choice vectors for PBF (field order, dense/plain, granularity, offsets, date granularity, unknown fields, indexdata, table layout, block splitting), o5m (inline vs back-reference per pair, table wrap-around, resets, unknown/sync/jump datasets, o5c) and OPL/XML renderers (attribute order, separators, escape styles, quoting, entity vs char-ref, line endings); files read by the real Reader and by the model decoders. Proved at full strength: pbf_decode_spec, o5m_table_ring + o5m_decode_spec, opl_decode_spec, xml_decode_spec (reader half for any XML-1.0-conformant event source + lexical half for the model tokenizer), field-order/unknown-field/any-rank lemmas, any BlobHeader size ≤ 64 KiB.',
     'C03': 'parts so far: o5m (cursor-program model with explicit `oob`, o5m_reads_in_bounds, hostile tier under ASan+UBSan in both build modes); PBF/text/layout parts in progress.',
     'C04': 'Model/Layout + Model/Buf (epochs model reallocation; raw pointers kept across calls become (epoch, offset)); capacity_independent for all scripts/capacities/modes yes|internal; purge_spec; stale-pointer theorem for the repaired ChangesetDiscussionBuilder. Open: alignment half of buf_inv, tree-level built_content (monitored, not proved).',
-    'C05': 'in progress (agent c0507).',
+    'C05': 'Model/Pipeline (read thread, parser thread with ParserWithBuffer nesting / PBF blob futures fulfilled by arbitrary workers, consumer with status machine and m_back_buffers; both queues are QueueSM machines of C19); queue_of_futures_order invariant, exactly_once_in_order at full strength for every well-formed configuration, schedule/pool-size independence, nested unwinding order, mask = filtered subsequence, read_after_eof_fails; tie = trace validation of real runs (scheduling validator finds an interleaving of the model consistent with the hook trace) + object-sequence monitor against the single-threaded decode over pool sizes, queue sizes, masks, buffers_type, four formats. Hypothesis blobFault = none on the equation theorems.',
     'C06': 'Model/Wire + Chunks + PbfFraming; theorems for all chunkings (OPL lines, PBF framing, o5m window + dataset loop, XML feed); harness drives the real line_by_line, PBFParser framing functions and O5mParser::ensure_bytes_available (-fno-access-control) and monitors the whole Reader behind a mock decompressor; o5m model = code after fix 4708c02.',
-    'C07': 'in progress (agent c0507).',
+    'C07': 'same Pipeline machine with faults (j-th decompressor read, close, parser before/after header, blob decode in a worker) and an arbitrary client; header_fulfilled_once, first_error_reported, fault_is_on_its_way, no_data_after_error, closed_reader_reads_nothing_more, bounded_progress (ranking function: every non-busy-wait internal step strictly decreases it); no_stuck_state (see manifest for what is still assumed); fairness of the OS scheduler assumed; fd/thread leaks observed by monitors (/proc/self/task, /proc/self/fd) under a 20 s watchdog for every stop point x fault point x queue/pool size.',
     'C08': 'Model/WriterSM: OS fault oracle, reliable_write, compressor wrappers over library contracts (GzSpec, BzSpec), writer/pool/write-thread small-step machine; harness interposes write/fsync/close (fopencookie bridge for stdio) and injects faults at every offset.',
     'C09': 'Model/Decomp with zlib/libbz2 as contract parameters; Fixes.all (= code after 20beb73, 0ac7ff4, d74b2ae) is the main line, Fixes.none kept with its refutation witnesses as regression documentation.',
     'C10': 'partial by design: exact-integer geometry core, segment order, duplicate cancellation, sweep, pre-check, orientation, permutation invariance proved; ring building judged by the executable Valid/even-odd spec on generated arrangements (not proved).',
